@@ -15,7 +15,7 @@
 (*    form, operands untouched, unnamed registers untouched).              *)
 (* The trace is accepted iff TLC consumes every event and bad = {}.        *)
 (***************************************************************************)
-EXTENDS DecConv, Json, TLC, IOUtils
+EXTENDS DecGob, Chars, Json, TLC, IOUtils
 
 DW == 19                                  \* digits per word of the real library (64-bit build)
 DB == Pow10(DW)
@@ -42,15 +42,6 @@ Ev == T[l]
 (***************************************************************************)
 WordNats(o) == [i \in 1..Len(o.words) |-> FromStr(o.words[i])]
 
-AbsObs(o) ==
-  IF o.form = "finite"
-  THEN LET ws == WordNats(o)
-           N  == ConcatWords(ws, DW)
-           \* value = N * 10^(exp - DW*len): as 0.dig * 10^e that is e = exp - (DW*len - digits(N))
-           e  == IAddInt(IFromInt(o.exp), Len(N) - DW * Len(ws))
-       IN MkDec("finite", o.neg, StripTZ(N), e, o.prec, o.mode, o.acc)
-  ELSE MkDec(o.form, o.neg, Zero, IZero, o.prec, o.mode, o.acc)
-
 Canonical(o) ==
   /\ o.bad = ""
   /\ o.form \in {"zero", "finite", "inf"}
@@ -65,6 +56,16 @@ Canonical(o) ==
           /\ o.minprec = Len(N) - TrailingZeros(N)                    \* the getters agree with the raw state
           /\ o.mantexp = o.exp
   /\ o.form # "finite" => o.minprec = 0 /\ o.mantexp = 0
+
+(* A malformed observation has no abstract value: it is adopted as form "bad" (C08 is reported on the event *)
+(* that produced it) and every later event that names such a register is skipped, not judged.              *)
+AbsObs(o) ==
+  IF ~Canonical(o) THEN MkDec("bad", o.neg, Zero, IZero, o.prec, IF o.mode \in Modes THEN o.mode ELSE 0, 0)
+  ELSE IF o.form = "finite"
+  THEN LET ws == WordNats(o)
+           N  == ConcatWords(ws, DW)
+       IN MkDec("finite", o.neg, StripTZ(N), IFromInt(o.exp), o.prec, o.mode, o.acc)
+  ELSE MkDec(o.form, o.neg, Zero, IZero, o.prec, o.mode, o.acc)
 
 (***************************************************************************)
 (* Generic comparison of one event with the specification's outcome        *)
@@ -95,9 +96,21 @@ MisZ(w) ==
           \cup (IF "prec" \notin w.free /\ g.prec # w.d.prec THEN {<<l, "C09", "prec">>} ELSE {})
           \cup (IF "mode" \notin w.free /\ g.mode # w.d.mode THEN {<<l, "C09", "mode">>} ELSE {})
 
+(* the property that owns an operation: a panic or a malformed result there also contradicts that property's text *)
+HomePid(op) ==
+  CASE op \in {"GobEncode", "GobDecode", "GobMutate", "GobRoundTrip", "GobStream"} -> {"C17"}
+    [] op \in {"Parse", "SetString", "UnmarshalText", "UnmarshalJSON", "ParseDecimal", "Scan"} -> {"C12"}
+    [] op \in {"Text", "Append", "String", "Format", "MarshalText", "MarshalJSON"} -> {"C13"}
+    [] op \in {"SetBitsExp", "SetBitsExpSelf", "BitsExp", "MantExp", "SetMantExp"} -> {"C20"}
+    [] op \in {"SetFloat64", "SetFloat", "Float64", "Float32", "Float"} -> {"C15"}
+    [] op \in {"SetInt", "SetInt64", "SetUint64", "SetRat", "NewDecimal", "Int", "Int64", "Uint64", "Rat", "IsInt"} -> {"C14"}
+    [] op = "Sqrt" -> {"C05"}
+    [] op = "FMA" -> {"C03"}
+    [] OTHER -> {}
+
 (* state invariants evaluated on every event; `writes` = registers the call may change *)
 Common(writes) ==
-  (IF \A r \in Named : Canonical(Ev.post[r]) THEN {} ELSE {<<l, "C08", "canonical">>})
+  (IF \A r \in Named : Canonical(Ev.post[r]) THEN {} ELSE {<<l, pp, "canonical">> : pp \in {"C08"} \cup HomePid(Ev.op)})
   \cup (IF \A r \in Named \ writes : Canonical(Ev.post[r]) => Got(r) = regs[r]
         THEN {} ELSE {<<l, "C09", "operand">>})
   \cup (IF \A r \in DOMAIN Ev.dg \ Named : r \in DOMAIN dgs => Ev.dg[r] = dgs[r]
@@ -107,7 +120,7 @@ Bump(tags) == [k \in DOMAIN cov \cup tags |-> (IF k \in DOMAIN cov THEN cov[k] E
 
 Adopt == [r \in DOMAIN regs \cup Named |-> IF r \in Named THEN Got(r) ELSE regs[r]]
 
-IsEv(op) == l <= Len(T) /\ Ev.op = op
+IsEv(op) == l <= Len(T) /\ Ev.op = op /\ Ev.out # "panic"
 
 (* a call with receiver Ev.z whose wanted outcome is w *)
 (* mismatches are stored as <<event, property, kind, deviation>>; deviation = "" unless a NAMED deviation of *)
@@ -123,11 +136,15 @@ VariantNext == IF "inst" \in DOMAIN Ev /\ Ev.inst \notin DOMAIN vres
                THEN [k \in DOMAIN vres \cup {Ev.inst} |-> IF k = Ev.inst THEN VariantKey ELSE vres[k]]
                ELSE vres
 
+(* an event that names a register whose last observation was malformed is not judged *)
+Skip == \E r \in Named : r \in DOMAIN regs /\ regs[r].form = "bad"
+
 StepDev(w, tags, extra, dev) ==
   /\ l' = l + 1
-  /\ vres' = VariantNext
-  /\ bad' = bad \cup Tag(MisZ(w) \cup extra, dev) \cup Tag(Common({Ev.z}) \cup VariantBad, "")
-  /\ cov' = Bump({Ev.op} \cup tags)
+  /\ vres' = IF Skip THEN vres ELSE VariantNext
+  /\ bad' = IF Skip THEN bad \cup Tag(Common(Named), "")
+            ELSE bad \cup Tag(MisZ(w) \cup extra, dev) \cup Tag(Common({Ev.z}) \cup VariantBad, "")
+  /\ cov' = IF Skip THEN Bump({"skipped"}) ELSE Bump({Ev.op} \cup tags)
   /\ regs' = Adopt
   /\ dgs' = Ev.dg
 
@@ -138,18 +155,20 @@ Step(w, tags) == StepX(w, tags, {})
 Observe(ok, pid, tags) ==
   /\ l' = l + 1
   /\ vres' = vres
-  /\ bad' = bad \cup Tag((IF Ev.out # "ok" THEN {<<l, "C04", "panic">>} ELSE IF ok THEN {} ELSE {<<l, pid, "ret">>})
+  /\ bad' = IF Skip THEN bad \cup Tag(Common(Named), "")
+            ELSE bad \cup Tag((IF Ev.out # "ok" THEN {<<l, "C04", "panic">>} ELSE IF ok THEN {} ELSE {<<l, pid, "ret">>})
                            \cup Common({}), "")
-  /\ cov' = Bump({Ev.op} \cup tags)
+  /\ cov' = IF Skip THEN Bump({"skipped"}) ELSE Bump({Ev.op} \cup tags)
   /\ regs' = Adopt
   /\ dgs' = Ev.dg
 
 ObserveDev(ok, pid, tags, dev) ==
   /\ l' = l + 1
   /\ vres' = vres
-  /\ bad' = bad \cup Tag(IF Ev.out # "ok" THEN {<<l, "C04", "panic">>} ELSE IF ok THEN {} ELSE {<<l, pid, "ret">>}, dev)
-                \cup Tag(Common({}), "")
-  /\ cov' = Bump({Ev.op} \cup tags)
+  /\ bad' = IF Skip THEN bad \cup Tag(Common(Named), "")
+            ELSE bad \cup Tag(IF Ev.out # "ok" THEN {<<l, "C04", "panic">>} ELSE IF ok THEN {} ELSE {<<l, pid, "ret">>}, dev)
+                     \cup Tag(Common({}), "")
+  /\ cov' = IF Skip THEN Bump({"skipped"}) ELSE Bump({Ev.op} \cup tags)
   /\ regs' = Adopt
   /\ dgs' = Ev.dg
 
@@ -168,6 +187,16 @@ TReset ==
   /\ dgs' = Ev.dg
   /\ bad' = bad \cup Tag(IF \A r \in Named : Canonical(Ev.post[r]) /\ Got(r) = ZeroValue THEN {} ELSE {<<l, "C08", "zerovalue">>}, "")
   /\ cov' = Bump({"Reset"})
+
+(* any call that panicked with something else than ErrNaN: "no operation on valid arguments panics with anything else" *)
+TPanic ==
+  /\ l <= Len(T) /\ Ev.out = "panic"
+  /\ l' = l + 1
+  /\ vres' = vres
+  /\ bad' = bad \cup Tag({<<l, pp, "panic">> : pp \in {"C04"} \cup HomePid(Ev.op)} \cup Common(Named), "")
+  /\ cov' = Bump({"panic"})
+  /\ regs' = Adopt
+  /\ dgs' = Ev.dg
 
 (* set-up pseudo-operation of the drivers: the specification adopts whatever (canonical) value results *)
 TLoad ==
@@ -326,6 +355,37 @@ TFloat ==
                   [] x.form = "inf" -> f.k = "inf" /\ f.neg = x.neg
                   [] OTHER -> Ev.ret.prec >= 1 /\ BigFloatWithin(x, f, Ev.ret.prec, 64), "C15", {"Float:" \o x.form})
 
+(* C17.  The encoder is bound to the specification's decoder: the payload must denote exactly x. *)
+GobEncodeOK(x, bs) == WellFormedGob(bs) /\ DecodeGob(bs) = x
+TGobEncode ==
+  /\ IsEv("GobEncode")
+  /\ Observe(~Ev.ret.err /\ GobEncodeOK(Pre(Ev.x), HexBytes(Ev.ret.hex)), "C17", {"GobEncode:" \o Pre(Ev.x).form})
+(* z.GobDecode(payload): a well-formed payload must be accepted and denote the result; anything else must *)
+(* give an error or leave a canonical Decimal (Canonical is checked on every event anyway)                *)
+GobDecodeStep(bs, tagp) ==
+  LET z == Pre(Ev.z)
+      wf == Len(bs) = 0 \/ WellFormedGob(bs)
+  IN IF wf
+     THEN StepX(OpGobDecode(z, bs), {tagp \o ":wellformed", tagp \o (IF z.prec = 0 THEN ":prec0" ELSE ":precn")},
+                IF Ev.out = "ok" /\ Ev.ret.err THEN {<<l, "C17", "rejected">>} ELSE {})
+     ELSE StepX([Outcome("ok", z, {"value", "acc", "prec", "mode"}, {"C17"}) EXCEPT !.why = "corrupt"],
+                {tagp \o ":corrupt", tagp \o (IF Ev.out = "ok" /\ Ev.ret.err THEN ":corrupt-error" ELSE ":corrupt-accepted")}, {})
+TGobDecode == IsEv("GobDecode") /\ GobDecodeStep(HexBytes(Ev.hex), "GobDecode")
+TGobMutate == IsEv("GobMutate") /\ GobDecodeStep(HexBytes(Ev.ret.hex), "GobMutate")
+TGobRoundTrip ==
+  /\ IsEv("GobRoundTrip")
+  /\ LET bs == HexBytes(Ev.ret.hex)
+         x == Pre(Ev.x)
+     IN IF Ev.out = "ok" /\ ~GobEncodeOK(x, bs)
+        THEN StepX(Outcome("ok", x, {"value", "acc", "prec", "mode"}, {"C17"}), {}, {<<l, "C17", "encode">>})
+        ELSE GobDecodeStep(bs, "GobRoundTrip")
+(* through encoding/gob streams: no payload is visible; the receiver must end up as OpGobDecode of x's own encoding says *)
+TGobStream ==
+  /\ IsEv("GobStream")
+  /\ LET x == Pre(Ev.x)  z == Pre(Ev.z)
+         w == IF z.prec = 0 THEN Outcome("ok", x, {}, {"C17"}) ELSE OkFree(SetLike(x.neg, x, z.prec, z.mode), z.prec, z.mode, {"C17"}, {"acc"})
+     IN StepX(w, {"GobStream"}, IF Ev.out = "ok" /\ Ev.ret.err THEN {<<l, "C17", "rejected">>} ELSE {})
+
 TSetMantExp == IsEv("SetMantExp") /\ Step(OpSetMantExp(Pre(Ev.z), Pre(Ev.x), IFromStr(Ev.e)), {})
 TMantExp ==
   /\ IsEv("MantExp")
@@ -370,8 +430,8 @@ TPreds14 ==
   /\ IsEv("IsInt")
   /\ LET x == Pre(Ev.x) IN Observe(Ev.ret.isint = IsInteger(x) /\ Ev.ret.minprec = MinPrecOf(x), "C14", {"IsInt:" \o ToString(IsInteger(x))})
 
-CoreNext == TReset \/ TLoad \/ TAdd \/ TSub \/ TMul \/ TQuo \/ TFMA \/ TSqrt \/ TNeg \/ TAbs \/ TSet \/ TCopy \/ TSetPrec \/ TSetMode
-            \/ TSetInf \/ TNew \/ TSetInt64 \/ TSetUint64 \/ TNewDecimal \/ TSetInt \/ TSetRat \/ TInt64 \/ TUint64 \/ TInt \/ TRat \/ TPreds14 \/ TSetFloat64 \/ TSetFloat \/ TFloat64 \/ TFloat32 \/ TFloat \/ TSetMantExp \/ TMantExp \/ TSetBitsExp \/ TSetBitsExpSelf \/ TBitsExp \/ TCmp \/ TPreds
+CoreNext == TReset \/ TPanic \/ TLoad \/ TAdd \/ TSub \/ TMul \/ TQuo \/ TFMA \/ TSqrt \/ TNeg \/ TAbs \/ TSet \/ TCopy \/ TSetPrec \/ TSetMode
+            \/ TSetInf \/ TNew \/ TSetInt64 \/ TSetUint64 \/ TNewDecimal \/ TSetInt \/ TSetRat \/ TInt64 \/ TUint64 \/ TInt \/ TRat \/ TPreds14 \/ TSetFloat64 \/ TSetFloat \/ TFloat64 \/ TFloat32 \/ TFloat \/ TGobEncode \/ TGobDecode \/ TGobMutate \/ TGobRoundTrip \/ TGobStream \/ TSetMantExp \/ TMantExp \/ TSetBitsExp \/ TSetBitsExpSelf \/ TBitsExp \/ TCmp \/ TPreds
 
 TraceInit == l = 1 /\ regs = <<>> /\ dgs = <<>> /\ bad = {} /\ cov = <<>> /\ vres = <<>>
 TraceNext == CoreNext
